@@ -32,7 +32,7 @@ CLAIMS = {
             "AES.encrypt/decrypt round loops by loop contract for ALL round keys and blocks (S-box uninterpreted), key schedule "
             "for all keys, ECB/CBC block methods, adapter = zero-padded CBC / exact inverse / MAC = last block / frame, "
             "bad lengths -> ValueError; the adapter level is proved per data length 1..33 (quick) / 1..80 (thorough) with "
-            "symbolic content (bounded in length, stated in the evidence); CFB/OFB/CTR and chunked feeding: bounded monitor",
+            "symbolic content (bounded in length, stated in the evidence); CFB/OFB/CTR and chunked feeding: bounded monitor ; ADDED: Counter.__init__/increment for all 128-bit values, CTR and OFB from every in-block offset x call length (state induction over calls), CFB-1/8/16 from any shift register, PKCS7 helpers, BlockFeeder.feed for any buffer and any amount of data in block/stream/segment modes (loop contract incl. termination); AES-192/256 rounds and key schedules are in the quick tier too",
             "DESIGN.md section 9 C16",
             TB + "; D_k(E_k(x)) = x taken from FIPS-197 (per-round lemmas proved); adapter proofs bounded in data length",
             "deductive: AST->VC (BV, loop contracts, uninterpreted S-box) + ground evaluation of tables, z3"),
@@ -52,7 +52,7 @@ CLAIMS = {
             "writer emits, for the abstract file f (any number of plain components and tags, any contents, key, offset, MAC "
             "check on/off): three loop contracts with ghost counters (cursor on element boundary, decoded prefix, variant) "
             "give: the reader accepts and returns exactly f.  Text envelope (comments, CRLF, path I/O): bounded monitor on "
-            "the real write_file/read_file",
+            "the real write_file/read_file ; ADDED: write_bf3_format hex-line loop under a loop contract (decoded lines == data for every length, <= 80 columns)",
             "DESIGN.md section 9 C01",
             TB + "; io.BytesIO model (short reads, seek/tell); the writer accepted f (length fields fit); plain components",
             "deductive: AST->VC, loop contracts with ghost state over BigConcat ropes, z3; bounded monitor for the text layer"),
@@ -90,7 +90,7 @@ CLAIMS = {
             "customer key / version / selector: unpack(pack(sk)) == (same block, sk) for the three block kinds under the "
             "encryptor contracts (C08 frame inverse, ECC plug-in contract with DH symmetry), and for every non-empty ordered "
             "subset of block kinds the written header/body split and the read-back of key, blocks and body hand-over; the "
-            "bounded monitor runs the real crypto on every ordered subset x decryptor subsets x keys with zero tails",
+            "bounded monitor runs the real crypto on every ordered subset x decryptor subsets x keys with zero tails ; ADDED: the file-level proofs fork over every subset of decryptors able to open at least one block",
             "DESIGN.md section 9 C02",
             TB + "; ECC plug-in by contract (fresh key pair, DH(a,pub b)=DH(b,pub a)); body by the C01/C03/C06 contracts",
             "deductive: AST->VC over ropes with callee contracts (closed world of block/encryptor classes), z3; bounded monitor"),
@@ -99,7 +99,7 @@ CLAIMS = {
             "ANY number of blocks (each pack() receives self.session_key), key/offset handed to the body writer, "
             "unpack_auth_blocks on all header shapes of up to 3 blocks (agreeing keys returned, disagreeing keys rejected, "
             "undecryptable blocks kept as UnknownAuthBlock that re-packs to the same bytes), one fresh ECC key pair per "
-            "EccEncryptor.encrypt used for both the public part and the DH secret",
+            "EccEncryptor.encrypt used for both the public part and the DH secret ; ADDED: unpack_auth_blocks for ANY header by a modular loop contract with a ghost key (common key of all decryptable blocks, differing key => error, undecryptable blocks kept byte for byte), read_file keeps the unwrapped key (no new draw)",
             "DESIGN.md section 9 C07",
             TB + "; statistical freshness of os.urandom/SigningKey.generate assumed; unpack proved per header shape (<= 3 "
                  "blocks, stated bound)",
@@ -121,7 +121,7 @@ CLAIMS = {
             "tag presence/values (others untouched and in order, one configuration last, blob from the new configuration "
             "only, comments untouched), derive_comments_from_config (derived keys depend on the configuration only, others "
             "untouched), derive_auth_blocks_from_config (exactly the requested kinds, code + version, idempotent); bounded "
-            "monitor: all operation sequences up to length 3 and random ones up to 5 against an abstract model",
+            "monitor: all operation sequences up to length 3 and random ones up to 5 against an abstract model ; ADDED: set_config for ANY number of components (abstract list with symbolic deletion index, _get_config_ndx by contract)",
             "DESIGN.md section 9 C11",
             TB + "; conf_dict_to_tlv and ConfigId by contract in the L1 part; set_config bounded to <= 3 components at L1",
             "deductive: AST->VC (loop contract with arbitrary-index invariant, object identity frames), z3; bounded monitor"),
@@ -152,7 +152,7 @@ CLAIMS = {
             "rejection paths and the termination variants of its three loops are obligations of C05/C01; the only global "
             "stores of bec2format are in register_* (AST scan, ground).  Unstructured input, termination on it and the "
             "vendored ECC library are covered by the bounded mutation corpus through all five entry points with the decryptor "
-            "sets none / public-only / private / wrong key under a time limit",
+            "sets none / public-only / private / wrong key under a time limit ; ADDED: unpack_auth_blocks terminates and raises only format errors for ANY header bytes (modular loop contract, variant)",
             "DESIGN.md section 9 C14",
             TB + "; ECC plug-in by contract in the L1 part; Bec2File.unpack_auth_blocks on a symbolic TLV is proved in the "
                  "thorough tier only (path count); termination on unstructured input by time limit",
@@ -164,7 +164,7 @@ CLAIMS = {
             "aff(result) = aff(P) (+) aff(Q) (chord / tangent / infinity) as Groebner-basis ideal membership under the curve "
             "equations and branch hypotheses.  Scalar multiplication (NAF, precomputed table), mul_add, affine Point "
             "arithmetic, ==, scale, ECDH symmetry and public-point validation: complete enumeration on small prime-order "
-            "curves and all 17 shipped curves at edge scalars (bounded).  Agreement with the OpenSSL binary: not a contract",
+            "curves and all 17 shipped curves at edge scalars (bounded).  Agreement with the OpenSSL binary: not a contract ; ADDED: completeness of the infinity tests of PointJacobi._add (a finite path must have decided Y, Z != 0 for both operands)",
             "DESIGN.md section 9 C17",
             "pyvc/field.py + sympy 1.14 (Groebner, reduction over Q); p an odd prime exceeding the formula constants; odd "
             "group order (infinity encoded as y = 0); scalar-multiplication loops bounded only",
@@ -190,7 +190,7 @@ CLAIMS = {
             "four published keys (length, 27-byte header, on P-256) as ground obligations.  Independent ECIES (own P-256 "
             "arithmetic + hashlib + own AES) opens blocks written by the real code for edge and random recipient scalars and "
             "vice versa; the real unwrap refuses off-curve / out-of-range / zero points (bounded).  Agreement with the "
-            "OpenSSL binary is not a contract",
+            "OpenSSL binary is not a contract ; ADDED: PrivateEccKeyProxy.compute_dh_secret returns the shared x as exactly 32 big-endian bytes for every x (ECDH by contract)",
             "DESIGN.md section 9 C09",
             TB + "; DH symmetry taken from C17; the independent implementation is spec/ecmath.py + spec/aes197.py, not OpenSSL",
             "deductive: AST->VC over ropes with callee contracts and ghost call logs, ground facts, z3; bounded independent ECIES"),
@@ -201,7 +201,7 @@ CLAIMS = {
             "(3 curves quick, 17 thorough).  Key / point encodings (DER, PEM, SEC1, PKCS#8, named and explicit parameters, "
             "raw / uncompressed / compressed / hybrid) on the curves, every truncation, extension and byte mutation, and "
             "BEC2's fixed 27-byte P-256 header: bounded monitor on the real library.  Byte compatibility with the OpenSSL "
-            "binary is not a contract",
+            "binary is not a contract ; ADDED: Public_key.__init__ accepts exactly the in-range on-curve points (cofactor-1 curves), coordinates 0 included",
             "DESIGN.md section 9 C19",
             TB + "; '%x' formatting / hexlify / unhexlify / int(.,16) by library model; key-level codecs bounded only",
             "deductive: AST->VC over ropes with a hexadecimal-text model (case split on magnitudes), z3; bounded monitor"),
@@ -212,7 +212,7 @@ CLAIMS = {
             "rejected before any group operation; ropes: sigdecode_der(sigencode_der(r,s)) = (r,s), trailing bytes refused "
             "(integer codec for all sizes under C19).  Bounded: all curves x SHA-1..512 x five encodings, deterministic "
             "signatures, bit flips of message and signature, another key, documented errors only, RFC 6979 A.2.5 vectors. "
-            "Not contracts: 'fails for ANY changed bit' as a universal statement, OpenSSL interoperability",
+            "Not contracts: 'fails for ANY changed bit' as a universal statement, OpenSSL interoperability ; ADDED: rfc6979.generate_k == RFC 6979 section 3.2 for all 17 curve orders x 5 digest sizes (HMAC uninterpreted, loop contract over the retry loop)",
             "DESIGN.md section 9 C18",
             "pyvc/field.py + sympy; abstract group (cyclic, prime order; x a function of the point) assumed from C17 and "
             "group theory; inverse_mod by its defining relation; RFC 6979 only by vectors",
